@@ -341,6 +341,11 @@ impl Vm {
   /// Main virtual machine execution loop. This will run the until the program interrupts
   /// from a normal exit or from a runtime error.
   fn execute(&mut self, mode: ExecutionMode) -> ExecutionResult {
+    // a loop started by a native for a callback belongs to the fiber that called the native.
+    // Other fibers run in it while the callback is parked on a channel, their frame depths
+    // say nothing about the callback
+    let native_fiber = self.fiber;
+
     unsafe {
       loop {
         #[cfg(feature = "verif")]
@@ -438,7 +443,7 @@ impl Vm {
           // somewhere we decided we need to return
           ExecutionSignal::OkReturn => {
             if let ExecutionMode::CallingNativeCode(depth) = mode {
-              if depth == self.fiber.frames().len() {
+              if self.fiber == native_fiber && depth == self.fiber.frames().len() {
                 return ExecutionResult::Ok(self.fiber.pop());
               }
             }
@@ -462,6 +467,12 @@ impl Vm {
           },
           ExecutionSignal::RuntimeError => match self.fiber.error() {
             Some(error) => {
+              let mode = if self.fiber == native_fiber {
+                mode
+              } else {
+                ExecutionMode::Normal
+              };
+
               if let Some(execute_result) = self.stack_unwind(error, mode) {
                 return execute_result;
               }
